@@ -746,6 +746,8 @@ class Emitter:
         """`let [mut] g = self.<field>.lock() / .write() / .read();` -> (g, "self.<field>");
         `let [mut] g = v.borrow_mut();` where v is itself an alias (the `&RefCell` handed to a `with` closure) -> (g, "v")"""
         if st[0] == "let" and st[1][0] == "pid" and st[3][0] == "mcall" and st[3][2] in GUARD_METHODS and not st[3][4]:
+            if st[3][2] == "read" and getattr(self.p, "readonly_read_guards", False):
+                return None         # a shared guard: an ordinary (read-only) binding of the guarded value
             r = st[3][1]
             if is_self_field(r):
                 return (st[1][1], "self." + r[2])
@@ -2015,6 +2017,122 @@ class PureProfile(BaseProfile):
         return None
 
 
+# ------------------------------------------------------------------------------------------------ the invalidation registry
+# `invalidation.rs`: six `RwLock<HashMap<…>>` tables.  A callback is represented by the identifier it was registered with;
+# INVOKING a callback is an effect the shallow embedding records in a log `invoked__` (for the conditional callbacks together
+# with the predicate handed to it), which every function that may invoke returns next to its own result.
+
+REG_INVOKERS = ("invalidate_caches", "invalidate_cache", "invalidate_with", "invalidate_all_with",
+                "invalidate_by_tag", "invalidate_by_event", "invalidate_by_dependency")
+
+
+def rewrite_registry_fn(name, body):
+    """`callback()` -> `invoked__.push_back(callback)`, `callback(ARG)` -> `invoked__.push_back((callback, ARG))`;
+    `tbl.entry(k).or_insert_with(HashSet::new).insert(v)` -> `tbl.table_add(k, v)`; the function's value `E` -> `(E, invoked__)`
+    for the functions that run callbacks themselves"""
+    def rw(n):
+        if isinstance(n, list):
+            return [rw(x) for x in n]
+        if not isinstance(n, tuple):
+            return n
+        if n and n[0] == "call" and n[1][0] == "path" and n[1][1] == ["callback"]:
+            args = [rw(a) for a in n[2]]
+            item = ("path", ["callback"], None) if not args else ("tuple", [("path", ["callback"], None)] + args)
+            return ("mcall", ("path", ["invoked__"], None), "push_back", None, [item])
+        if n and n[0] == "mcall" and n[2] == "insert" and n[1][0] == "mcall" and n[1][2] == "or_insert_with" \
+                and n[1][1][0] == "mcall" and n[1][1][2] == "entry":
+            return ("mcall", rw(n[1][1][1]), "table_add", None, [rw(n[1][1][4][0]), rw(n[4][0])])
+        return tuple(rw(x) for x in n)
+    body = rw(body)
+    if name in ("invalidate_caches", "invalidate_cache", "invalidate_with", "invalidate_all_with"):
+        if body[2] is None:
+            raise Untranslatable(f"invalidation.rs: `{name}` no longer ends in a value")
+        init = ("let", ("pid", "invoked__"), None, ("call", ("path", ["Vec", "new"], None), []))
+        res = ("let", ("pid", "result__"), None, body[2])
+        body = ("block", [init] + list(body[1]) + [res], ("tuple", [("path", ["result__"], None), ("path", ["invoked__"], None)]))
+    return body
+
+
+class RegistryProfile(PureProfile):
+    readonly_read_guards = True
+
+    def kind_of(self, e):
+        k = super().kind_of(e)
+        if k is None:
+            e0 = strip_guard(e)
+            if e0 == ("path", ["callbacks"], None):
+                return "kv"         # `let callbacks = self.<callback table>.read();`
+            if e0[0] == "field" and e0[1][0] == "path" and e0[1][1] == ["metadata"]:
+                return "iter"
+        return k
+
+    def mut_method(self, name, recv=None):
+        kind = self.kind_of(recv) if recv is not None else None
+        if name == "table_add":
+            return ("Registry.Table.add", False)
+        if name == "insert" and kind == "kv":
+            return ("Registry.setKey", False)
+        if name == "clear" and kind in ("table", "kv"):
+            return ("RustLite.clearAll", False)
+        if name == "push_back" and recv is not None and strip_guard(recv) == ("path", ["invoked__"], None):
+            return ("RustLite.pushBack", False)
+        return None
+
+    def call(self, segs, generics, args, em, env):
+        if segs == ["Vec", "new"] and not args:
+            return "[]"
+        if segs == ["Arc", "new"] and len(args) == 1:
+            return em.expr(args[0], env)
+        if len(segs) == 1 and self.kinds.get(segs[0]) == "keypred2" and len(args) == 2:
+            return f"({ident(segs[0])} {em.expr(args[0], env)} {em.expr(args[1], env)})"
+        return super().call(segs, generics, args, em, env)
+
+    def method(self, recv, name, generics, args, em, env):
+        kind = self.kind_of(recv)
+        R = lambda: em.expr(recv, env)
+        r0 = recv
+        while r0[0] in ("paren", "ref", "deref"):
+            r0 = r0[1]
+        if r0[0] == "path" and r0[1] == ["self"] and name in self.fns:
+            return super().method(recv, name, generics, args, em, env)
+        # `tbl.get(k).cloned().unwrap_or_default()` / `tbl.get(k).map(|set| set.iter().cloned().collect()).unwrap_or_default()`
+        if name == "unwrap_or_default" and not args:
+            r = r0
+            if r[0] == "mcall" and r[2] == "cloned" and not r[4]:
+                r = r[1]
+            elif r[0] == "mcall" and r[2] == "map" and len(r[4]) == 1 and is_collect_closure(r[4][0]):
+                r = r[1]
+            else:
+                raise Untranslatable(f"`unwrap_or_default` on {str(r)[:120]}")
+            if r[0] == "mcall" and r[2] == "get" and len(r[4]) == 1 and self.kind_of(r[1]) == "table":
+                return f"(Registry.Table.get {em.expr(r[1], env)} {em.expr(r[4][0], env)})"
+            raise Untranslatable(f"`unwrap_or_default` on {str(r)[:120]}")
+        if name == "get" and len(args) == 1 and kind == "kv":
+            return f"(Registry.getKey {R()} {em.expr(args[0], env)})"
+        if name == "iter" and not args and kind == "kv":
+            return R()
+        if name in ("clone", "to_string", "to_owned", "iter", "into_iter") and not args:
+            return R()
+        if name in GUARD_METHODS and not args:
+            return R()
+        return None
+
+
+def is_collect_closure(c):
+    """`|set| set.iter().cloned().collect()`"""
+    if c[0] != "closure" or len(c[1]) != 1 or c[1][0][0] != "pid":
+        return False
+    b = c[2]
+    if b[0] == "block" and not b[1] and b[2] is not None:
+        b = b[2]
+    v = c[1][0][1]
+    return b == ("mcall", ("mcall", ("mcall", ("path", [v], None), "iter", None, []), "cloned", None, []), "collect", None, [])
+
+
+MODULE_PROFILE = {"Registry": RegistryProfile}
+MODULE_REWRITE = {"Registry": rewrite_registry_fn}
+
+
 def uses_key_method(node):
     if isinstance(node, (list, tuple)):
         if isinstance(node, tuple) and len(node) >= 3 and node[0] == "mcall" and node[2] == "key":
@@ -2048,6 +2166,9 @@ def regenerate():
             problems.append(f"{rel}: " + (str(e) if isinstance(e, Untranslatable) else f"translator error {e!r}"))
             text = "-- translation failed: " + str(e).replace("\n", " ") + "\n"
         h2 = hdr.replace("import Cachelito.RustLite\n", "import Cachelito.RustLite\nimport Cachelito.Generated.PureUtils\nimport Cachelito.Generated.PureEntry\nimport Cachelito.Generated.PureStats\n") if mod in ("Global", "Async", "Thread") else hdr
+        if mod == "Registry":
+            write_if_changed(os.path.join(GEN_DIR, "PureRegistry.lean"), hdr.replace("import Cachelito.RustLite\n", "import Cachelito.RustLite\nimport Cachelito.RegistrySt\n") + "namespace Registry\nopen Cachelito.RustLite (RegistrySt)\n\n" + text + "\nend Registry\nend Cachelito.Generated\n")
+            continue
         write_if_changed(os.path.join(GEN_DIR, f"Pure{mod}.lean"), h2 + f"namespace {mod}\nvariable {{K V F E T : Type}} [DecidableEq K]\n\n" + text + f"\nend {mod}\nend Cachelito.Generated\n")
     # the macros' generated wrapper (after the engines: it calls their translated functions)
     try:
@@ -2076,9 +2197,21 @@ def write_if_changed(path, text):
         open(path, "w").write(text)
 
 
-def lean_type(rust, pname):
+def lean_type(rust, pname, reg_fn=None):
     t = rust.replace(" ", "")
     base = strip_ref(rust).replace(" ", "")
+    if reg_fn is not None:
+        # invalidation.rs: names, tags, events are Strings; a callback is the identifier the registering party gave it
+        if base == "InvalidationMetadata":
+            return "Registry.Meta", "meta"
+        if base == "F" and pname == "callback":
+            return "Nat", "cbid"
+        if base == "F" and pname == "predicate":
+            return ("String → String → Bool", "keypred2") if reg_fn == "invalidate_all_with" else ("String → Bool", "keypred")
+        if base == "HashSet<String>":
+            return "List String", "iter"
+        if base in ("str", "String"):
+            return "String", "key"
     if "HashMap<" in t:
         return "Store K V", "map"
     if "VecDeque<" in t:
@@ -2130,6 +2263,12 @@ UTIL_FILES = [
     ("Thread", "cachelito-core/src/thread_local_cache.rs", "RustLite.ThreadCache K V F",
      {"self.cache": "map", "self.order": "deque", "self.frequency_weight": "optf64", "self.stats": "stats"},
      ["move_to_end", "increment_frequency", "remove_key", "remove_key_with_order", "handle_entry_limit_eviction", "insert", "get", "insert_result", "insert_with_memory", "insert_result_with_memory"]),
+    ("Registry", "cachelito-core/src/invalidation.rs", "RustLite.RegistrySt",
+     {"self.tag_to_caches": "table", "self.event_to_caches": "table", "self.dependency_to_caches": "table",
+      "self.cache_metadata": "kv", "self.clear_callbacks": "kv", "self.invalidation_check_callbacks": "kv"},
+     ["register", "register_callback", "register_invalidation_callback", "invalidate_caches", "invalidate_by_tag",
+      "invalidate_by_event", "invalidate_by_dependency", "invalidate_cache", "get_caches_by_tag", "get_caches_by_event",
+      "get_dependent_caches", "invalidate_with", "invalidate_all_with", "clear"]),
     ("Async", "cachelito-core/src/async_global_cache.rs", "RustLite.AsyncCache K V F",
      {"self.cache": "map", "self.order": "deque", "self.frequency_weight": "optf64", "self.stats": "stats"},
      ["find_min_frequency_key", "find_arc_eviction_key", "find_tlru_eviction_key", "is_already_key_inserted",
@@ -2610,12 +2749,16 @@ def translate_utils(module, skip=()):
                         sty = self_ty.replace(" K V F", " K (Except E T) F")
                     sig.append(f"(self : {sty})")
                     continue
-                lt, kind = lean_type(pt, pn)
+                lt, kind = lean_type(pt, pn, name if module == "Registry" else None)
                 kinds[pn] = kind
                 sig.append(f"({ident(pn)} : {lt})")
-            prof = PureProfile(kinds, table)
+            prof = MODULE_PROFILE.get(module, PureProfile)(kinds, table)
+            prof.fn_name = name
             em = Emitter(prof, f"{rel}:{f['line']} ({name})")
             body_of(f)
+            if module in MODULE_REWRITE and not f.get("rewritten"):
+                f["body"] = MODULE_REWRITE[module](name, f["body"])
+                f["rewritten"] = True
             prof.rs_mode = contains_loop(f["body"])
             muts = [f["params"][i][0] for i in table[name]["mut_idx"]]
             # interior mutability: `&self` methods that mutate a cell of self return the new self
@@ -2657,8 +2800,9 @@ def translate_utils(module, skip=()):
             sig, _, _, _, muts = bodies[name]
             kinds = dict(self_kinds)
             for (pn, pt) in f["params"]:
-                kinds[pn] = "self" if pn == "self" else lean_type(pt, pn)[1]
-            prof = PureProfile(kinds, table)
+                kinds[pn] = "self" if pn == "self" else lean_type(pt, pn, name if module == "Registry" else None)[1]
+            prof = MODULE_PROFILE.get(module, PureProfile)(kinds, table)
+            prof.fn_name = name
             em = Emitter(prof, f"{rel}:{f['line']} ({name})")
             prof.rs_mode = contains_loop(f["body"])
             env = [p[0] for p in f["params"]]
